@@ -187,6 +187,60 @@ func (s *symFn) emissionsInlined() []emission {
 	return out
 }
 
+// e5Frame: one step of a chain that leads from the function a row names to a call site: the evaluator of the function the
+// step stands in and the call instruction (the call of the next helper, or — in the last frame — the site itself).
+type e5Frame struct {
+	sf   *symFn
+	site *ssa.Call
+}
+
+// e5Sites: the call sites of the named function as seen from sf.fn; with depth > 0 also those inside own helpers that sf.fn
+// calls directly (and their helpers, depth levels down), each helper evaluated with its parameters bound to the arguments.
+func e5Sites(p *Program, sf *symFn, name string, depth int) [][]e5Frame {
+	var out [][]e5Frame
+	for _, b := range sf.fn.Blocks {
+		for _, in := range b.Instrs {
+			call, ok := in.(*ssa.Call)
+			if !ok {
+				continue
+			}
+			cal := call.Call.StaticCallee()
+			if cal == nil {
+				continue
+			}
+			if p.FuncKey(cal) == name || fullFuncName(cal) == name {
+				out = append(out, []e5Frame{{sf, call}})
+				continue
+			}
+			if depth <= 0 || call.Call.IsInvoke() || cal == sf.fn || !p.IsOwnFunc(cal) || len(cal.Blocks) == 0 {
+				continue
+			}
+			if sf.inlineOK != nil && !sf.inlineOK(cal) {
+				continue
+			}
+			sub := newSymFn(p, cal, sf.depth+1)
+			sub.inlineOK = sf.inlineOK
+			for i, prm := range cal.Params {
+				if i >= len(call.Call.Args) {
+					break
+				}
+				a := call.Call.Args[i]
+				if al, ok := a.(*ssa.Alloc); ok {
+					if _, isStruct := al.Type().Underlying().(*types.Pointer).Elem().Underlying().(*types.Struct); isStruct {
+						sub.params[prm] = sf.structCell(al, call)
+						continue
+					}
+				}
+				sub.params[prm] = sf.val(a)
+			}
+			for _, ch := range e5Sites(p, sub, name, depth-1) {
+				out = append(out, append([]e5Frame{{sf, call}}, ch...))
+			}
+		}
+	}
+	return out
+}
+
 // freeStoreTarget: "freestore:<var>[.<F1>.<F2>]" for a store to (a field of) a captured variable.
 func freeStoreTarget(addr ssa.Value) string {
 	var path []string
@@ -468,6 +522,38 @@ func runE5Row(p *Program, sp *Spec, c *Collector, r *E5Row) bool {
 			ems = sf.emissionsInlined()
 			collect()
 		}
+		if r.Merge && len(matches) > 0 {
+			// an emission that sits in deeper loops than the row names, and whose record does not depend on their elements, is
+			// the same as one emission at the row's depth under "some element satisfies the condition"
+			depth := 0
+			if r.Each != nil {
+				depth = len(strings.Split(r.Each.As, ","))
+			}
+			for i := range matches {
+				e := &matches[i]
+				var hs []*ssa.BasicBlock
+				for h, l := range sf.headers {
+					if l[e.block] {
+						hs = append(hs, h)
+					}
+				}
+				sort.Slice(hs, func(a, b int) bool { return len(sf.headers[hs[a]]) > len(sf.headers[hs[b]]) })
+				for len(hs) > depth {
+					h := hs[len(hs)-1]
+					name := sf.binderName(h)
+					if e.elem.mentions(name) {
+						break
+					}
+					e.cond = &Sym{Op: "exists", Name: name, Kids: []*Sym{sf.loopCollection(h), e.cond}, Kind: "bool"}
+					for _, pred := range h.Preds {
+						if !sf.headers[h][pred] {
+							e.block = pred
+						}
+					}
+					hs = hs[:len(hs)-1]
+				}
+			}
+		}
 		if len(matches) > 1 {
 			// several candidates: keep those at the loop depth the row describes
 			depth := 0
@@ -642,9 +728,17 @@ func runE5Row(p *Program, sp *Spec, c *Collector, r *E5Row) bool {
 		return ok
 	case "callguard", "callarg":
 		// find the call site(s) of callee in fn. The callee may list alternatives "f:1|g:0" (function key : argument index): the
-		// first alternative that is called at all is the one the record passes through (robust to helper extraction / inlining)
-		var sites []*ssa.Call
+		// first alternative that is called at all is the one the record passes through (robust to helper extraction / inlining).
+		// A site is a chain of frames: the call itself when it stands in fn; when fn has fewer sites than the row describes, the
+		// sites in the own helpers fn calls (two levels), each seen through the call that leads to it — the helper's parameters
+		// are what fn passes, the loops around the site are fn's loops around the call followed by the helper's, the condition
+		// is the conjunction along the chain.
+		var chains [][]e5Frame
 		firstAlt := r.Callee
+		expect := 1
+		if r.Total > 0 {
+			expect = r.Total
+		}
 		for ai, alt := range strings.Split(r.Callee, "|") {
 			name, argIdx := alt, r.Arg
 			if i := strings.LastIndex(alt, ":"); i > 0 {
@@ -655,16 +749,13 @@ func runE5Row(p *Program, sp *Spec, c *Collector, r *E5Row) bool {
 			if ai == 0 {
 				firstAlt = name
 			}
-			for _, b := range fn.Blocks {
-				for _, in := range b.Instrs {
-					if call, ok := in.(*ssa.Call); ok {
-						if cal := call.Call.StaticCallee(); cal != nil && (p.FuncKey(cal) == name || fullFuncName(cal) == name) {
-							sites = append(sites, call)
-						}
-					}
+			chains = e5Sites(p, sf, name, 0)
+			if len(chains) < expect {
+				if deep := e5Sites(p, sf, name, 2); len(deep) > len(chains) {
+					chains = deep
 				}
 			}
-			if len(sites) > 0 {
+			if len(chains) > 0 {
 				r.Arg = argIdx
 				break
 			}
@@ -676,57 +767,79 @@ func runE5Row(p *Program, sp *Spec, c *Collector, r *E5Row) bool {
 				key += "." + r.Field
 			}
 		}
-		if r.Kind == "callguard" && r.AnySite && len(sites) > 0 {
+		chainCond := func(ch []e5Frame) *Sym {
+			got := sBool(true)
+			for _, f := range ch {
+				got = sAnd(got, f.sf.pathCond(f.site.Block()))
+			}
+			return got
+		}
+		last := func(ch []e5Frame) e5Frame { return ch[len(ch)-1] }
+		if r.Kind == "callguard" && r.AnySite && len(chains) > 0 {
 			want, err := parse(r.Expr)
 			if err != nil {
 				c.Anchor(r.Props, "E5: %v", err)
 				return false
 			}
 			got := sBool(false)
-			for _, st := range sites {
-				got = sOr(got, sf.pathCond(st.Block()))
+			for _, ch := range chains {
+				got = sOr(got, chainCond(ch))
 			}
-			return e5Compare(c, r, key+" any-site", p.InstrPos(sites[0]), got, want, "bool", r.What)
+			return e5Compare(c, r, key+" any-site", p.InstrPos(last(chains[0]).site), got, want, "bool", r.What)
 		}
 		if r.Total > 0 {
 			// several call sites (in source order); the row describes site number Index
 			key += fmt.Sprintf(" site%d", r.Index)
-			if len(sites) != r.Total {
-				c.Ob(r.Props, "E5.decision", key, Violated, fmt.Sprintf("%s: expected %d calls of %s in %s, found %d", r.What, r.Total, shortFn(r.Callee), shortFn(r.Func), len(sites)), pos, false)
+			if len(chains) != r.Total {
+				c.Ob(r.Props, "E5.decision", key, Violated, fmt.Sprintf("%s: expected %d calls of %s in %s, found %d", r.What, r.Total, shortFn(r.Callee), shortFn(r.Func), len(chains)), pos, false)
 				return false
 			}
-			sort.SliceStable(sites, func(i, j int) bool { return sites[i].Pos() < sites[j].Pos() })
-			sites = []*ssa.Call{sites[r.Index]}
+			sort.SliceStable(chains, func(i, j int) bool { return last(chains[i]).site.Pos() < last(chains[j]).site.Pos() })
+			chains = [][]e5Frame{chains[r.Index]}
 		}
-		if len(sites) != 1 {
-			c.Ob(r.Props, "E5.decision", key, Violated, fmt.Sprintf("%s: expected exactly one call of %s in %s, found %d", r.What, shortFn(r.Callee), shortFn(r.Func), len(sites)), pos, false)
+		if len(chains) != 1 {
+			c.Ob(r.Props, "E5.decision", key, Violated, fmt.Sprintf("%s: expected exactly one call of %s in %s, found %d", r.What, shortFn(r.Callee), shortFn(r.Func), len(chains)), pos, false)
 			return false
 		}
-		site := sites[0]
+		chain := chains[0]
+		site := last(chain).site
+		lsf := last(chain).sf
 		extra := []string{}
 		subst := map[string]*Sym{}
-		// enclosing loops, outermost first, bind the names listed in each.as (comma separated)
-		if r.Each != nil {
-			names := strings.Split(r.Each.As, ",")
+		// enclosing loops, outermost first along the chain
+		type loopAt struct {
+			frame int
+			h     *ssa.BasicBlock
+		}
+		var loops []loopAt
+		for fi, f := range chain {
 			var hs []*ssa.BasicBlock
-			for h, l := range sf.headers {
-				if l[site.Block()] {
+			for h, l := range f.sf.headers {
+				if l[f.site.Block()] {
 					hs = append(hs, h)
 				}
 			}
-			sort.Slice(hs, func(i, j int) bool { return len(sf.headers[hs[i]]) > len(sf.headers[hs[j]]) })
-			for i, h := range hs {
+			fsf := f.sf
+			sort.Slice(hs, func(i, j int) bool { return len(fsf.headers[hs[i]]) > len(fsf.headers[hs[j]]) })
+			for _, h := range hs {
+				loops = append(loops, loopAt{fi, h})
+			}
+		}
+		// bind the names listed in each.as (comma separated)
+		if r.Each != nil {
+			names := strings.Split(r.Each.As, ",")
+			for i, l := range loops {
 				if i < len(names) {
 					nm := strings.TrimSpace(names[i])
 					extra = append(extra, nm)
-					subst[sf.binderName(h)] = &Sym{Op: "param", Name: fmt.Sprintf("p%d", len(r.Params)+i)}
+					subst[chain[l.frame].sf.binderName(l.h)] = &Sym{Op: "param", Name: fmt.Sprintf("p%d", len(r.Params)+i)}
 				}
 			}
 			nk := len(extra)
-			for i, h := range hs {
+			for i, l := range loops {
 				if i < len(names) {
 					extra = append(extra, strings.TrimSpace(names[i])+"_k")
-					subst[sf.binderName(h)+"_k"] = &Sym{Op: "param", Name: fmt.Sprintf("p%d", len(r.Params)+nk+i)}
+					subst[chain[l.frame].sf.binderName(l.h)+"_k"] = &Sym{Op: "param", Name: fmt.Sprintf("p%d", len(r.Params)+nk+i)}
 				}
 			}
 		}
@@ -738,20 +851,19 @@ func runE5Row(p *Program, sp *Spec, c *Collector, r *E5Row) bool {
 		var got *Sym
 		hint := ""
 		if r.Kind == "callguard" {
-			got = sf.pathCond(site.Block())
+			got = chainCond(chain)
 			if r.InLoop {
-				var inner *ssa.BasicBlock
-				for h, l := range sf.headers {
-					if l[site.Block()] && (inner == nil || len(l) < len(sf.headers[inner])) {
-						inner = h
-					}
-				}
-				if inner == nil {
+				if len(loops) == 0 {
 					c.Ob(r.Props, "E5.decision", key, Violated, fmt.Sprintf("%s: the call of %s is not inside a loop", r.What, shortFn(r.Callee)), p.InstrPos(site), false)
 					return false
 				}
-				// from the loop body's first block (the successor of the header inside the loop)
-				got = sf.pathCondFrom(inner, site.Block(), sf.headers[inner])
+				// from the body of the innermost loop along the chain; the frames below it contribute their whole condition
+				in := loops[len(loops)-1]
+				f := chain[in.frame]
+				got = f.sf.pathCondFrom(in.h, f.site.Block(), f.sf.headers[in.h])
+				for _, g := range chain[in.frame+1:] {
+					got = sAnd(got, g.sf.pathCond(g.site.Block()))
+				}
 			}
 			hint = "bool"
 		} else {
@@ -762,11 +874,11 @@ func runE5Row(p *Program, sp *Spec, c *Collector, r *E5Row) bool {
 			arg := site.Call.Args[r.Arg]
 			if al, ok := arg.(*ssa.Alloc); ok {
 				if _, isStruct := al.Type().Underlying().(*types.Pointer).Elem().Underlying().(*types.Struct); isStruct {
-					got = sf.structCell(al, site)
+					got = lsf.structCell(al, site)
 				}
 			}
 			if got == nil {
-				got = sf.val(arg)
+				got = lsf.val(arg)
 			}
 			if at := elementsAssignedInPlace(arg); at != nil {
 				// the term describes the slice as it was produced; its elements are overwritten before the call
@@ -786,40 +898,82 @@ func runE5Row(p *Program, sp *Spec, c *Collector, r *E5Row) bool {
 		return e5Compare(c, r, key, p.InstrPos(site), got, want, hint, r.What)
 	}
 	if r.Kind == "slicebound" {
-		// the upper bound of the slice expression x.<Field>[:hi]
-		var site *ssa.Slice
-		n := 0
-		for _, b := range fn.Blocks {
-			for _, in := range b.Instrs {
-				if sl, ok := in.(*ssa.Slice); ok && sl.High != nil {
-					base := sf.val(sl.X)
-					if base.Op == "field" && base.Name == r.Field {
-						site = sl
-						n++
+		// the upper bound of the slice expression x.<Field>[:hi]; when fn has none, the one in a helper fn calls directly
+		type sbSite struct {
+			chain []e5Frame // frames leading to the function that holds the slice expression (empty: fn itself)
+			sf    *symFn
+			sl    *ssa.Slice
+		}
+		var found []sbSite
+		scan := func(f *symFn, chain []e5Frame) {
+			for _, b := range f.fn.Blocks {
+				for _, in := range b.Instrs {
+					if sl, ok := in.(*ssa.Slice); ok && sl.High != nil {
+						base := f.val(sl.X)
+						if base.Op == "field" && base.Name == r.Field {
+							found = append(found, sbSite{chain, f, sl})
+						}
 					}
 				}
 			}
 		}
+		scan(sf, nil)
+		if len(found) == 0 {
+			for _, b := range fn.Blocks {
+				for _, in := range b.Instrs {
+					call, ok := in.(*ssa.Call)
+					if !ok || call.Call.IsInvoke() || call.Call.StaticCallee() == nil {
+						continue
+					}
+					cal := call.Call.StaticCallee()
+					if cal == fn || !p.IsOwnFunc(cal) || len(cal.Blocks) == 0 {
+						continue
+					}
+					sub := newSymFn(p, cal, 1)
+					for i, prm := range cal.Params {
+						if i < len(call.Call.Args) {
+							sub.params[prm] = sf.val(call.Call.Args[i])
+						}
+					}
+					scan(sub, []e5Frame{{sf, call}})
+				}
+			}
+		}
 		key := e5Key(r, "slice of "+r.Field)
-		if n != 1 {
-			c.Ob(r.Props, "E5.decision", key, Violated, fmt.Sprintf("%s: expected exactly one slice expression over .%s in %s, found %d", r.What, r.Field, shortFn(r.Func), n), pos, false)
+		if len(found) != 1 {
+			c.Ob(r.Props, "E5.decision", key, Violated, fmt.Sprintf("%s: expected exactly one slice expression over .%s in %s, found %d", r.What, r.Field, shortFn(r.Func), len(found)), pos, false)
 			return false
 		}
+		st := found[0]
 		extra := []string{}
 		subst := map[string]*Sym{}
 		if r.Each != nil {
 			names := strings.Split(r.Each.As, ",")
-			var hs []*ssa.BasicBlock
-			for h, l := range sf.headers {
-				if l[site.Block()] {
-					hs = append(hs, h)
+			type loopAt struct {
+				f *symFn
+				h *ssa.BasicBlock
+			}
+			var loops []loopAt
+			add := func(f *symFn, at *ssa.BasicBlock) {
+				var hs []*ssa.BasicBlock
+				for h, l := range f.headers {
+					if l[at] {
+						hs = append(hs, h)
+					}
+				}
+				sort.Slice(hs, func(i, j int) bool { return len(f.headers[hs[i]]) > len(f.headers[hs[j]]) })
+				for _, h := range hs {
+					loops = append(loops, loopAt{f, h})
 				}
 			}
-			sort.Slice(hs, func(i, j int) bool { return len(sf.headers[hs[i]]) > len(sf.headers[hs[j]]) })
-			for i, h := range hs {
+			for _, fr := range st.chain {
+				add(fr.sf, fr.site.Block())
+			}
+			add(st.sf, st.sl.Block())
+			for i, l := range loops {
 				if i < len(names) {
 					extra = append(extra, strings.TrimSpace(names[i]))
-					subst[sf.binderName(h)] = &Sym{Op: "param", Name: fmt.Sprintf("p%d", len(r.Params)+i)}
+					subst[l.f.binderName(l.h)] = &Sym{Op: "param", Name: fmt.Sprintf("p%d", len(r.Params)+i)}
 				}
 			}
 		}
@@ -828,7 +982,7 @@ func runE5Row(p *Program, sp *Spec, c *Collector, r *E5Row) bool {
 			c.Fatal("E5: %v", err)
 			return false
 		}
-		return e5Compare(c, r, key, p.InstrPos(site), sf.val(site.High).subst(subst), want, "int", r.What)
+		return e5Compare(c, r, key, p.InstrPos(st.sl), st.sf.val(st.sl.High).subst(subst), want, "int", r.What)
 	}
 	c.Fatal("E5: unknown row kind %q", r.Kind)
 	return false
